@@ -2,11 +2,11 @@ PROP = dict(
         coq="Properties/C20.v",
         workloads=[
             dict(name="genesis-roundtrip", go_test="TestC20", runner="C20",
-                 env=dict(quick=dict(VERIF_CASES=12), thorough=dict(VERIF_CASES=1200))),
+                 env=dict(quick=dict(VERIF_CASES=12), thorough=dict(VERIF_CASES=600))),
             dict(name="genesis-roundtrip-liquidations", go_test="TestC20Liq", runner="C20",
-                 env=dict(quick=dict(VERIF_CASES=8), thorough=dict(VERIF_CASES=600))),
+                 env=dict(quick=dict(VERIF_CASES=8), thorough=dict(VERIF_CASES=300))),
             dict(name="genesis-roundtrip-lend", go_test="TestC20Lend", runner="C20",
-                 env=dict(quick=dict(VERIF_CASES=8), thorough=dict(VERIF_CASES=400))),
+                 env=dict(quick=dict(VERIF_CASES=8), thorough=dict(VERIF_CASES=200))),
         ],
         rule="genesis-roundtrip: case = one generated scenario (1-5 vaults on two extended pairs with a draw-down fee, optional close of the newest / a random vault, "
              "0-4 lockers with optional close, collector lookup + auction mapping, with or without the secondary asset registered as genesis token "
